@@ -161,12 +161,16 @@ SHIPPED = {
                            ('ev', 'floorSelected', (('floor', 3),)), ('clock', 1), ('clock', 10)]),
     'microwave_with_contracts': ('docs/examples/microwave/microwave_with_contracts.yaml', None),
 }
+# (two context variables, box and view, name one list: evaluating conditions must not break the aliasing)
 # a synthetic chart in the same lock-step exploration: time-dependent guards (after/idle) on states that stay
 # active while their own internal transitions fire, and (satisfied) contracts that use every contract-only name
 TIMED_YAML = """
 statechart:
   name: timed
-  preamble: n = 0
+  preamble: |
+    n = 0
+    box = []
+    view = box
   root state:
     name: root
     initial: alive
@@ -180,7 +184,9 @@ statechart:
           - after: n >= __old__.n
         transitions:
           - event: ping
-            action: n = n + 1
+            action: |
+              n = n + 1
+              box.append(n)
             contract:
               - before: active('alive')
               - after: n == __old__.n + 1
@@ -193,6 +199,7 @@ statechart:
           - guard: after(7)
             target: old
           - event: move
+            guard: len(view) == len(box)
             target: par
       - name: expired
         transitions:
